@@ -59,6 +59,21 @@ def _run_cli(cmd: List[str], txt: str, timeout_s: int):
 
 def discharge(axioms, ob: Obligation, tier: str = "quick", budget_ms: int = 10000) -> Verdict:
     t0 = time.time()
+    if ob.kind == "vacuity":
+        # must-fail obligation: an `unsat` here means the hypotheses are inconsistent and every
+        # other obligation of the function would be vacuously discharged
+        s = z3.Solver()
+        s.set("timeout", 3000)
+        s.set("smt.mbqi", False)
+        for a in axioms:
+            s.add(a)
+        for f in ob.pc:
+            s.add(f)
+        r = s.check()
+        ms = int((time.time() - t0) * 1000)
+        if r == z3.unsat:
+            return Verdict(ob.name, "unknown", "z3-5.1", ms, ob.where, ob.kind, "hypotheses are contradictory: `False` was proved")
+        return Verdict(ob.name, "discharged", "z3-5.1", ms, ob.where, ob.kind, f"not refutable ({r}), as required")
     r = None
     for mbqi in (False, True):
         s = z3.Solver()
